@@ -22,6 +22,7 @@ func TestC04(t *testing.T) {
 			o.NonTrivial = uint64(n) > s.Q && (sb || !s.alwaysReady())
 			if tr.Deadlock != "" {
 				o.Skip = "run did not complete (belongs to C12)"
+				return o
 			}
 			o.Err = CheckC04(s, tr)
 			return o
